@@ -1321,9 +1321,6 @@ func (s *syncer) compareAtSyncPoint(where string) *outcome {
 // MaxTraceableBlocks heights (nodes dropped by later blocks are only marked
 // inactive until GC passes them); states below the sync point were never there.
 func (s *syncer) checkHistoric(i uint32, when string) *outcome {
-	if os.Getenv("C20_NO_HISTORIC") != "" {
-		return nil
-	}
 	lo := s.p
 	if m := uint32(s.src.mtb); i+1 > m && i+1-m > lo {
 		lo = i + 1 - m
@@ -1341,10 +1338,6 @@ func (s *syncer) checkHistoric(i uint32, when string) *outcome {
 		}
 		var got []storage.KeyValue
 		_, pv := guard(func() error {
-			if os.Getenv("C20_NO_SEEK") != "" {
-				got = want.items
-				return nil
-			}
 			sm.SeekStates(sr.Root, nil, func(k, v []byte) bool {
 				got = append(got, storage.KeyValue{Key: bytes.Clone(k), Value: bytes.Clone(v)})
 				return true
@@ -1367,9 +1360,6 @@ func (s *syncer) checkHistoric(i uint32, when string) *outcome {
 		}
 		// the whole key set one by one, and a prefix search per contract
 		for _, it := range want.items {
-			if os.Getenv("C20_NO_GET") != "" {
-				break
-			}
 			v, err := sm.GetState(sr.Root, it.Key)
 			if err != nil || !bytes.Equal(v, it.Value) {
 				return &outcome{"sync:retained-state-unreadable:" + age + ":GetState", fmt.Sprintf("%s: node at %d (sync point %d): GetState(root of %d, %x): %x %v, the source has %x", when, i, s.p, h, it.Key, v, err, it.Value)}
@@ -1387,9 +1377,6 @@ func (s *syncer) checkHistoric(i uint32, when string) *outcome {
 				if string(x.Key[:4]) == pfx && len(x.Key) > 4 {
 					n++
 				}
-			}
-			if os.Getenv("C20_NO_FIND") != "" {
-				break
 			}
 			kvs, err := sm.FindStates(sr.Root, []byte(pfx), []byte{}, len(want.items)+1)
 			if n > 0 && (err != nil || len(kvs) != n) {
